@@ -888,7 +888,28 @@ func c04ConcScenarios(tier string) []scenario {
 	return scs
 }
 
+// c15GiveUpScenarios: a frame of another goroutine is stuck half way in the transport, a Ping
+// whose context ends gives up waiting for the frame lock, and a further Ping with a healthy
+// context follows: control frames never land inside another frame (C15: the Ping that reaches
+// the peer, and the Pong it answers with, carry their payload intact).
+func c15GiveUpScenarios(tier string) []scenario {
+	var scs []scenario
+	p := 1
+	if tier == "thorough" {
+		p = 2
+	}
+	for _, k := range []connCfg{{Client: false}, {Client: true}} {
+		prm := c05Params{Prop: "C15", Name: "WG", K: k, Window: 60, DrainAt: time.Second, GiveUp: true, Writers: [][]wop{{{Chunks: []int{100}}}}}
+		scs = append(scs, scenario{Name: prm.Name + "/" + k.String(), Cfg: explore.Config{P: p, Horizon: 60e9}, Setup: c05Setup(prm)})
+	}
+	return scs
+}
+
 func init() {
+	fw.Register(fw.Part{Prop: "C15", Name: "s.giveup",
+		Units:  func(tier string) []fw.Unit { return scenarioUnits(c15GiveUpScenarios(tier)) },
+		Replay: replayFn(c15GiveUpScenarios),
+	})
 	fw.Register(fw.Part{Prop: "C14", Name: "s.conc",
 		Units:  func(tier string) []fw.Unit { return scenarioUnits(c14ConcScenarios(tier)) },
 		Replay: replayFn(c14ConcScenarios),
